@@ -17,7 +17,7 @@ Definition stat_safe (rf : rec_fns) (sf : sps_fns) (m : mmsg) : Prop :=
   (forall v sps q, rf_hevc_parse_enh rf (mm_pay m) = Ok (v, sps, q) -> is_ok (sf_hevc_dims sf sps)).
 
 Definition fx_all_ok (fx : fixes) : Prop :=
-  fx_msg_ok fx /\ fx_tsidx fx = true /\ fx_rtspidx fx = true /\ fx_dummy fx = true /\ fx_bound fx = true.
+  fx_msg_ok fx /\ fx_tsidx fx = true /\ fx_rtspidx fx = true /\ fx_dummy fx = true /\ fx_bound fx = true /\ fx_addflag fx = true.
 
 (* Group.feedRtpPacket with the fixed boundary classifiers is total *)
 Lemma avc_boundary_total b : is_ok (NetRtpHeader.is_avc_boundary true b).
@@ -90,7 +90,6 @@ Variable c : grp_cfg.
 Hypothesis FX : fx_all_ok fx.
 Hypothesis CF : cf_safe cf.
 Hypothesis RF : rf_safe rf.
-Hypothesis ADD : gc_add c = false.
 
 Let FM : fx_msg_ok fx := proj1 FX.
 
@@ -184,8 +183,8 @@ Lemma bc_rtsp_ok g m : rtsp_inv (g_rtsp g) ->
   exists r x, bc_rtsp fx rf acfg c g m = Ok (r, x) /\ rtsp_inv r.
 Proof.
   intros Hi. unfold bc_rtsp. destruct (gc_rtsp c); [|do 2 eexists; split; [reflexivity|exact Hi]].
-  pose proof FX as (_ & _ & FR & _ & FB). rewrite ADD.
-  destruct (rtsp_feed_ok fx rf acfg FM FR RF (g_rtsp g) m Hi) as (r & ev & -> & Hr). cbn [bind].
+  pose proof FX as (_ & _ & FR & _ & FB & FA).
+  destruct (rtsp_feed_ok fx rf acfg FM FR FA RF (gc_add c) (g_rtsp g) m Hi) as (r & ev & -> & Hr). cbn [bind].
   destruct (rtsp_events_ok fx (gc_rtsp_wait c) ev (g_sdp g) (g_rsubs g) FB) as [x ->]. cbn [bind].
   do 2 eexists. split; [reflexivity|exact Hr].
 Qed.
@@ -231,7 +230,7 @@ Lemma on_read_ok g m :
 Proof.
   intros Hi Hs Hts. unfold on_read. destruct (gc_dummy c) as [wait|].
   - destruct Hi as (Hi1 & Hi2 & Hi3 & Hi4).
-    pose proof FX as ((F1 & F2 & _) & _ & _ & FD & _).
+    pose proof FX as ((F1 & F2 & _) & _ & _ & FD & _ & _).
     destruct (dummy_feed_ok (stat_safe rf sf) (fun ts => proj1 (GEN ts)) (fun ts => proj2 (GEN ts)) fx F1 F2 FD wait (g_dummy g) m Hi3 Hi4 Hts Hs)
       as (outs & d' & -> & Ho & _ & Hd1 & Hd2).
     cbn [bind].
